@@ -30,6 +30,7 @@ import (
 	"strconv"
 	"strings"
 	"time"
+	"unicode/utf8"
 
 	"github.com/opencontainers/go-digest"
 	ocispec "github.com/opencontainers/image-spec/specs-go/v1"
@@ -247,6 +248,109 @@ type spec struct {
 	ConfigAnn map[string]string    `json:"config_ann"`
 	Prefill   []prefill            `json:"prefill"`
 	Backed    map[string]string    `json:"backed"` // digest -> content of user-supplied descriptors present in the target
+	FaultErr  string               `json:"fault_err,omitempty"` // what the failing storage operation returns: "" plain, notfound, dupname, closed
+	// strings that are not valid UTF-8 cannot travel in JSON: hex encoded (hex key -> hex value)
+	HexAT        string            `json:"hex_at,omitempty"`
+	HexAnn       map[string]string `json:"hex_ann,omitempty"`
+	HexConfigAnn map[string]string `json:"hex_config_ann,omitempty"`
+}
+
+func hexMap(m map[string]string) map[string]string {
+	out := map[string]string{}
+	for k, v := range m {
+		out[common.Hex(k)] = common.Hex(v)
+	}
+	return out
+}
+
+func unhexMap(m map[string]string) map[string]string {
+	out := map[string]string{}
+	for k, v := range m {
+		out[common.UnHex(k)] = common.UnHex(v)
+	}
+	return out
+}
+
+func validMap(m map[string]string) bool {
+	for k, v := range m {
+		if !utf8.ValidString(k) || !utf8.ValidString(v) {
+			return false
+		}
+	}
+	return true
+}
+
+// decodeHex restores the raw strings of a replayed spec.
+func (sp *spec) decodeHex() {
+	if sp.HexAT != "" {
+		sp.AT, sp.HexAT = common.UnHex(sp.HexAT), ""
+	}
+	if sp.HexAnn != nil {
+		sp.Ann, sp.HexAnn = unhexMap(sp.HexAnn), nil
+	}
+	if sp.HexConfigAnn != nil {
+		sp.ConfigAnn, sp.HexConfigAnn = unhexMap(sp.HexConfigAnn), nil
+	}
+}
+
+// nonUTF8 reports whether a caller string that reaches the manifest document is not valid UTF-8.
+func (sp *spec) nonUTF8() bool {
+	return !utf8.ValidString(sp.AT) || !validMap(sp.Ann) || !validMap(sp.ConfigAnn)
+}
+
+// sanString is what encoding/json makes of a Go string: every byte that does not start a
+// well-formed UTF-8 sequence becomes U+FFFD.
+func sanString(s string) string {
+	if utf8.ValidString(s) {
+		return s
+	}
+	var b strings.Builder
+	for i := 0; i < len(s); {
+		r, n := utf8.DecodeRuneInString(s[i:])
+		if r == utf8.RuneError && n == 1 {
+			b.WriteString("\uFFFD")
+		} else {
+			b.WriteString(s[i : i+n])
+		}
+		i += n
+	}
+	return b.String()
+}
+
+func sanMap(m map[string]string) map[string]string {
+	if m == nil {
+		return nil
+	}
+	out := map[string]string{}
+	for k, v := range m {
+		out[sanString(k)] = sanString(v)
+	}
+	return out
+}
+
+func sanDescP(d *ocispec.Descriptor) *ocispec.Descriptor {
+	if d == nil {
+		return nil
+	}
+	c := *d
+	c.MediaType, c.ArtifactType, c.Digest = sanString(c.MediaType), sanString(c.ArtifactType), digest.Digest(sanString(string(c.Digest)))
+	c.Annotations = sanMap(c.Annotations)
+	return &c
+}
+
+func sanDoc(m doc) doc {
+	m.AT, m.Ann, m.Config, m.Subject = sanString(m.AT), sanMap(m.Ann), sanDescP(m.Config), sanDescP(m.Subject)
+	var ls []ocispec.Descriptor
+	for i := range m.Layers {
+		ls = append(ls, *sanDescP(&m.Layers[i]))
+	}
+	if m.Layers != nil {
+		m.Layers = ls
+		if ls == nil {
+			m.Layers = []ocispec.Descriptor{}
+		}
+	}
+	return m
 }
 
 var errInjected = errors.New("verif: injected storage fault")
@@ -264,10 +368,28 @@ type storage interface {
 }
 
 type recorder struct {
-	inner  storage
-	events []event
-	ops    int
-	failAt int
+	inner    storage
+	events   []event
+	ops      int
+	failAt   int
+	faultErr string
+}
+
+// fault is the error of the failing storage operation: always recognisable as injected, and
+// optionally also one of the errors real stores return (a Pack that swallows that class
+// would then succeed although the operation failed)
+func (r *recorder) fault(op string) error {
+	switch r.faultErr {
+	case "notfound":
+		return fmt.Errorf("%s: %w: %w", op, errInjected, errdef.ErrNotFound)
+	case "dupname":
+		return fmt.Errorf("%s: %w: %w", op, errInjected, file.ErrDuplicateName)
+	case "closed":
+		return fmt.Errorf("%s: %w: %w", op, errInjected, file.ErrStoreClosed)
+	case "unsupported":
+		return fmt.Errorf("%s: %w: %w", op, errInjected, errdef.ErrUnsupported)
+	}
+	return fmt.Errorf("%s: %w", op, errInjected)
 }
 
 func (r *recorder) push(c context.Context, d ocispec.Descriptor, rd io.Reader) error {
@@ -275,7 +397,7 @@ func (r *recorder) push(c context.Context, d ocispec.Descriptor, rd io.Reader) e
 	r.ops++
 	if op == r.failAt {
 		r.events = append(r.events, event{kind: "P", desc: d, err: errInjected})
-		return fmt.Errorf("push: %w", errInjected)
+		return r.fault("push")
 	}
 	data, err := io.ReadAll(rd)
 	if err != nil {
@@ -291,7 +413,7 @@ func (r *recorder) exists(c context.Context, d ocispec.Descriptor) (bool, error)
 	r.ops++
 	if op == r.failAt {
 		r.events = append(r.events, event{kind: "X", desc: d, err: errInjected})
-		return false, fmt.Errorf("exists: %w", errInjected)
+		return false, r.fault("exists")
 	}
 	ok, err := r.inner.Exists(c, d)
 	r.events = append(r.events, event{kind: "X", desc: d, err: err, found: ok})
@@ -678,7 +800,17 @@ func expect(sp *spec) expectation {
 }
 
 func specJSON(sp *spec) string {
-	js, err := json.Marshal(sp)
+	c := *sp
+	if !utf8.ValidString(c.AT) {
+		c.HexAT, c.AT = common.Hex(c.AT), ""
+	}
+	if !validMap(c.Ann) {
+		c.HexAnn, c.Ann = hexMap(c.Ann), nil
+	}
+	if !validMap(c.ConfigAnn) {
+		c.HexConfigAnn, c.ConfigAnn = hexMap(c.ConfigAnn), nil
+	}
+	js, err := json.Marshal(&c)
 	if err != nil {
 		panic(err)
 	}
@@ -738,7 +870,7 @@ func packCase(sp *spec) {
 		repo.Client.(*fakeRegistry).validate = true
 		run.Count("registry_validating")
 	}
-	rec := &recorder{inner: inner, failAt: sp.FailAt}
+	rec := &recorder{inner: inner, failAt: sp.FailAt, faultErr: sp.FaultErr}
 	var p content.Pusher = pusherOnly{rec}
 	if sp.Exists {
 		p = fullStorage{rec}
@@ -761,7 +893,7 @@ func packCase(sp *spec) {
 		}
 		switch {
 		case e.kind == "X":
-			evs = append(evs, fmt.Sprintf("X:%s:%s:%d", common.Hex(d.MediaType), common.Hex(string(d.Digest)), d.Size))
+			evs = append(evs, fmt.Sprintf("X:%s:%s:%d:%s", common.Hex(d.MediaType), common.Hex(string(d.Digest)), d.Size, showAnn(d.Annotations)))
 		case isManifest:
 			manifestPushes++
 			evs = append(evs, fmt.Sprintf("PM:%s:%s:%s", common.Hex(d.MediaType), common.Hex(d.ArtifactType),
@@ -877,8 +1009,17 @@ func packCase(sp *spec) {
 	if desc.MediaType != gotMT || gotMT != map[string]string{"I": ocispec.MediaTypeImageManifest, "A": mtArtifactManifest}[e.want.Kind] {
 		fail("media-type", "descriptor media type %q, manifest mediaType %q, want kind %s", desc.MediaType, gotMT, e.want.Kind)
 	}
+	lossy := false
 	if got.String() != e.want.String() {
-		fail("manifest-fields", "manifest is %s, requested %s", got.String(), e.want.String())
+		if sp.nonUTF8() && got.String() == sanDoc(e.want).String() {
+			// exactly the coercion of invalid UTF-8 by json.Marshal explains the difference
+			lossy = true
+			run.Count("non_utf8_lossy")
+			fail("non-utf8-lossy", "%s: a caller string is not valid UTF-8; the stored manifest carries U+FFFD instead (descriptor and pushed blobs keep the raw bytes): manifest is %s, requested %s",
+				sp.Fn, got.String(), e.want.String())
+		} else {
+			fail("manifest-fields", "manifest is %s, requested %s", got.String(), e.want.String())
+		}
 	}
 	if !hadCreated && got.Ann[key] != nowPlaceholder {
 		fail("created-missing", "no created timestamp of this call in the annotations: %q", got.Ann[key])
@@ -908,7 +1049,7 @@ func packCase(sp *spec) {
 		}
 	}
 	// the result can be copied when everything the caller supplied is there
-	if allBacked(sp, true) {
+	if allBacked(sp, true) && !lossy {
 		run.Count("copy_checked")
 		dst := memory.New()
 		if cerr := oras.CopyGraph(ctx, inner, dst, desc, oras.DefaultCopyGraphOptions); cerr != nil {
